@@ -564,7 +564,14 @@ def flow_b(ctx, batches):
         evs = events[r]
         if not evs:
             continue
-        chunks = [evs[i:i + 40000] for i in range(0, len(evs), 40000)]
+        chunks, cur = [], []          # chunks end at a Reset: an execution is never split
+        for e in evs:
+            cur.append(e)
+            if e["e"] == "Reset" and len(cur) >= 30000:
+                chunks.append(cur)
+                cur = []
+        if cur:
+            chunks.append(cur)
         for ci, ch in enumerate(chunks):
             # keep chunks self-contained: start after a Reset
             tp = ctx.path("layout_trace_%d_%d.ndjson" % (r, ci))
